@@ -1,5 +1,6 @@
 import Driver.Util
 import ClairModel.Model.Matchers
+import ClairModel.Model.MatchersLang
 
 /-!
   Line protocol of the C03 model (see go/internal/c03):
@@ -13,6 +14,8 @@ import ClairModel.Model.Matchers
     osv <pkgver> <fixedin> <table>       -> true | false | err | missing:<hex>
          table = comma separated  <string>/<parses 1|0>/<pkg compared to it l|e|g|x>  (or "none"):
          what the real parser / comparator of the scheme said about the strings involved
+    osvs <python|ruby|java> <pkgver> <fixedin>   -> true | false | err
+         the same call answered with the C12 models of pep440 / gem / maven on the strings
     vercmp <kind> <v0,..,v9> <kind> <v0,..,v9>            -> -1 | 0 | 1
     range <nil|set> <lkind> <l..> <ukind> <u..> <vkind> <v..>   -> true | false
     ctl <versionFilter 0|1> <authoritative 0|1> <dbhit 0|1> <matcher> <vuln fields…>  -> true | false | err | hang
@@ -149,6 +152,14 @@ def answer (l : String) : Option String :=
     match (osvNeeds pv fx).find? (fun s => !(t.any fun e => e.s = s)) with
     | some s => pure s!"missing:{hexOf s}"
     | none => pure (outStr (vulnerableOsv (tableScheme t) { version := pv } { fixed := fx }))
+  | ["osvs", eco, pv, fx] => do
+    let p : Pkg := { version := ← str pv }
+    let v : Vuln := { fixed := ← str fx }
+    match eco with
+    | "python" => pure (outStr (vulnerablePython p v))
+    | "ruby" => pure (outStr (vulnerableRuby p v))
+    | "java" => pure (outStr (vulnerableJava p v))
+    | _ => none
   | ["vercmp", k1, v1, k2, v2] => do
     pure (ordStr ((← parseNVersion k1 v1).compare (← parseNVersion k2 v2)))
   | ["range", tag, lk, lv, uk, uv, vk, vv] => do
